@@ -340,12 +340,28 @@ def flavour_files(flavour):
     return frozenset(POOL) | frozenset(FLAVOURS[flavour])
 
 
-def new_rundir(wd, pool, name, flavour="plain"):
+def job_words(v):
+    """every string in a JSON-shaped job"""
+    if isinstance(v, str):
+        return {v}
+    if isinstance(v, dict):
+        return set().union(*[job_words(x) for x in v.values()]) if v else set()
+    if isinstance(v, list):
+        return set().union(*[job_words(x) for x in v]) if v else set()
+    return set()
+
+
+def new_rundir(wd, pool, name, flavour="plain", only=None):
+    """only: create just those entries of the flavour (the end-to-end runs need five directories per job and create the look-alike
+    entries whose name is a word of the job - a front end can only ask about names it is given; the configuration-level and model
+    runs use the whole flavour)"""
     d = os.path.join(wd, "r", name)
     os.makedirs(d)
     for f in POOL:
         os.symlink(os.path.join(pool, f), os.path.join(d, f))
     for f, target in FLAVOURS[flavour].items():
+        if only is not None and f not in only:
+            continue
         if target is None:
             os.mkdir(os.path.join(d, f))
         else:
@@ -421,9 +437,10 @@ class Runner:
         base = "%s%05d" % (tag, self.n)
         rs = []
         files = flavour_files(flavour)
+        only = job_words(job) | job_words(json_job) if flavour != "plain" else None
 
         def rundir(name):
-            return new_rundir(self.wd, self.pool, base + "/" + name, flavour)
+            return new_rundir(self.wd, self.pool, base + "/" + name, flavour, only)
         argv = argv_override if argv_override is not None else render_argv(T, job, argv_order, style, files)
         rs.append(("cli-argv", "cli", rundir("cli-argv"), argv))
         d = rundir("cli-json")
@@ -1413,6 +1430,12 @@ def hw_systematic(T):
         for out in ("split-%d.pdf", "7", "5-6"):
             add("split", splitPages=sp, outputFile=out)
             add("split", splitPages=sp, outputFile=out, inputFile="2", pages=[pspec(".", "1-2"), pspec("1-3", "2")])
+    # an option whose parameter is optional, omitted, directly followed (alt_order) by an input / output named like the parameter
+    for inp in ("2", "1-3", "A.pdf"):
+        add("optional", collate="", inputFile=inp, pages=[pspec(".", "1"), pspec("B.pdf", "2")])
+        add("optional", splitPages="", inputFile=inp, outputFile="7")
+        add("optional", json="", inputFile=inp, outputFile=None)
+        add("optional", jsonOutput="", inputFile=inp, outputFile="7")
     for out in HW_OUT:
         add("positional", outputFile=out, inputFile="1-3")
         add("positional", outputFile=out, inputFile="z", collate="", pages=[pspec("."), pspec("2", "1")])
@@ -1462,6 +1485,23 @@ def pages_word_soup(rng):
     return [rng.choice(["A.pdf", "2"]), "out.pdf", "--pages"] + ws + tail
 
 
+def alt_order(T, j):
+    """a second command-line order: the options whose optional parameter is omitted come first and the positional words directly
+    after them, so that a word which looks like the parameter (an input named 2 after --collate, an output named 7 after
+    --split-pages) follows the flag"""
+    opt = [k for k in sorted(j) if k in T.main and T.main[k]["kind"] in ("optparam", "optchoices") and j[k] == ""]
+    if not opt:
+        return None
+    pos = [k for k in ("inputFile", "empty", "outputFile", "replaceInput") if k in j]   # the input (or its substitute) before the output
+    return opt + pos + [k for k in sorted(j) if k not in opt and k not in pos]
+
+
+def cwd_variants(T, j):
+    """(style, order) of the command-line renderings of a job: positional and named spelling in key order, and alt_order"""
+    o = alt_order(T, j)
+    return [(0, None), (1, None)] + ([(0, o)] if o else [])
+
+
 def cwd_signature(job):
     return enc40_signature(job, None)
 
@@ -1476,6 +1516,7 @@ def part_cwd(chk, T, runner):
     sysjobs = hw_systematic(T)
     jobs = [j for _, j in sysjobs] + [hw_random(T, rng) for _ in range(300 if quick else 20000)]
     fam = [f for f, _ in sysjobs] + ["random"] * (len(jobs) - len(sysjobs))
+    variants = [cwd_variants(T, j) for j in jobs]
     mrunner = os.path.join(common.EXTRACT, "model_runner")
     # ---- cwd-cfg / cwd-front, one driver directory per flavour
     nviol = {"cwd-cfg": 0, "cwd-e2e": 0}
@@ -1489,34 +1530,39 @@ def part_cwd(chk, T, runner):
         exe = "env --chdir=%s %s" % (d, runner.drv)
         lines, idx = [], []
         for i, j in enumerate(jobs):
-            for style in (0, 1):
-                argv = render_argv(T, j, None, style, files)
+            for vi, (style, order) in enumerate(variants[i]):
+                argv = render_argv(T, j, order, style, files)
                 lines.append("cfg_argv " + " ".join(hexs(a) for a in argv))
-                idx.append((i, style, argv))
+                idx.append((i, vi, argv))
             lines.append("cfg_json " + hexs(json.dumps(j)))
         t0 = time.time()
         outs = common.run_lines(exe, lines, shards=4)
         tw["cfg"] += time.time() - t0
-        k = 0
+        k, ai = 0, 0
         for i, j in enumerate(jobs):
-            a0, a1, b = parse_dump(outs[k]), parse_dump(outs[k + 1]), parse_dump(outs[k + 2])
-            k += 3
-            for style, a in ((0, a0), (1, a1)):
+            nv = len(variants[i])
+            b = parse_dump(outs[k + nv])
+            n_cfg += 1
+            for vi in range(nv):
+                a = parse_dump(outs[k + vi])
+                argv = idx[ai][2]
+                ai += 1
                 n_cfg += 1
                 dist_cfg[a[0]] = dist_cfg.get(a[0], 0) + 1
-                argv = render_argv(T, j, None, style, files)
                 if a[0] == "ok" and b[0] == "ok":
                     df = dump_diff(a, b)
                     if df:
                         nviol["cwd-cfg"] += 1
                         chk.violation({"kind": "property-fails-on-implementation", "part": "cwd-cfg", "why": "configuration differs in %s" % df[:10],
-                                       "job_json": j, "argv": argv, "style": style, "cwd_flavour": fl, "cwd_entries": sorted(FLAVOURS[fl]),
+                                       "job_json": j, "argv": argv, "style": variants[i][vi][0], "argv_order": variants[i][vi][1], "cwd_flavour": fl,
+                                       "cwd_entries": sorted(FLAVOURS[fl]),
                                        "differing_fields": {f: {"argv": a[1].get(f), "json": b[1].get(f)} for f in df[:10]}},
                                       signature=cwd_signature(j))
                     else:
-                        nontriv_cfg.add(json.dumps([j, style], sort_keys=True))
+                        nontriv_cfg.add(json.dumps([j, vi], sort_keys=True))
                 elif a[0] != b[0] and not (a[0] in ("usage", "error") and b[0] in ("usage", "error")):
-                    pending.append((i, style, fl))
+                    pending.append((i, vi, fl))
+            k += nv + 1
         # the model on the same words, on mutations of them, and on word sequences inside --pages
         cases = [argv for (_, _, argv) in idx]
         for _ in range(len(jobs) // 2 if quick else len(jobs)):
@@ -1547,7 +1593,7 @@ def part_cwd(chk, T, runner):
                 nontriv_front.add(mo)
             if not ok:
                 front_bad.append((c, fl, mo, ro, po, why))
-    chk.count("cwd-cfg", n_cfg + n_cfg // 2, nontriv_cfg, samples=[{"job": jobs[i], "argv": render_argv(T, jobs[i], None, 0, flavour_files("all"))} for i in (1, len(sysjobs) - 1, len(jobs) - 1)])
+    chk.count("cwd-cfg", n_cfg, nontriv_cfg, samples=[{"job": jobs[i], "argv": render_argv(T, jobs[i], None, 0, flavour_files("all"))} for i in (1, len(sysjobs) - 1, len(jobs) - 1)])
     chk.cov["parts"]["cwd-cfg"]["distribution"] = dist_cfg
     chk.cov["parts"]["cwd-cfg"]["flavours"] = {fl: len(FLAVOURS[fl]) for fl in FLAVOUR_ORDER}
     chk.cov["parts"]["cwd-cfg"]["families"] = {f: fam.count(f) for f in sorted(set(fam))}
@@ -1564,30 +1610,34 @@ def part_cwd(chk, T, runner):
     chk.count("cwd-front", n_front, nontriv_front, samples=[{"input": pages_word_soup(rng)}])
     chk.cov["parts"]["cwd-front"]["distribution"] = dist_front
     # ---- cwd-e2e: the five renderings; every systematic job in the directory that has everything, the rest over the other flavours
-    sel = []
+    sel = []      # (job index, variant index, flavour)
     for i in range(len(sysjobs)):
-        # quick tier: every one-specification --pages job, every third job of the other families (all of them at the configuration level above)
-        if not quick or fam[i] == "pages1" or i % 3 == chk.seed % 3:
+        # quick tier: every second one-specification --pages job, every third job of the other families (all of them at the configuration
+        # level above; which ones depends on the seed)
+        if not quick or (fam[i] == "pages1" and (i // 2) % 2 == chk.seed % 2) or (fam[i] != "pages1" and i % 3 == chk.seed % 3):
             sel.append((i, i % 2, "all" if i % 4 else "ranges-dir"))
+        if len(variants[i]) > 2:
+            sel.append((i, 2, "all"))
     for n, i in enumerate(range(len(sysjobs), len(jobs))):
-        if n >= (40 if quick else 4000):
+        if n >= (30 if quick else 4000):
             break
-        sel.append((i, n % 2, FLAVOUR_ORDER[n % len(FLAVOUR_ORDER)]))
-    seen = {(i, st, fl) for i, st, fl in sel}
+        sel.append((i, n % len(variants[i]), FLAVOUR_ORDER[n % len(FLAVOUR_ORDER)]))
+    seen = set(sel)
     for x in pending[:40 if quick else 2000]:
         if x not in seen:
             seen.add(x)
             sel.append(x)
     t0 = time.time()
-    prepared = [(jobs[i], runner.prepare(jobs[i], "w", style=st, flavour=fl)) for i, st, fl in sel]
+    prepared = [(jobs[i], runner.prepare(jobs[i], "w", style=variants[i][vi][0], argv_order=variants[i][vi][1], flavour=fl)) for i, vi, fl in sel]
     tw["e2e-prepare"] = time.time() - t0
     t0 = time.time()
     results = runner.run_all(prepared)
     tw["e2e-run"] = time.time() - t0
     chk.cov["cwd_wall_s"] = {k: round(v, 1) for k, v in tw.items()}
     nontriv, dist = set(), {"ok": 0, "warn": 0, "usage": 0, "error": 0}
-    for (i, st, fl), res in zip(sel, results):
+    for (i, vi, fl), res in zip(sel, results):
         j = jobs[i]
+        st, order = variants[i][vi]
         why = compare(res)
         ref = res["cli-argv"]
         cls = "usage" if ref["usage"] else {0: "ok", 3: "warn"}.get(ref["rc"], "error")
@@ -1596,7 +1646,7 @@ def part_cwd(chk, T, runner):
             nontriv.add(json.dumps([j, fl], sort_keys=True))
         if why:
             nviol["cwd-e2e"] += 1
-            report(chk, "cwd-e2e", j, res, why, signature=cwd_signature(j), extra={"style": st, "cwd_flavour": fl, "cwd_entries": sorted(FLAVOURS[fl])})
+            report(chk, "cwd-e2e", j, res, why, signature=cwd_signature(j), extra={"style": st, "argv_order": order, "cwd_flavour": fl, "cwd_entries": sorted(FLAVOURS[fl])})
     chk.count("cwd-e2e", 5 * len(sel), nontriv, samples=[{"job": jobs[sel[i][0]], "cwd_flavour": sel[i][2], "argv": results[i]["cli-argv"]["payload"],
                                                           "rc": results[i]["cli-argv"]["rc"]} for i in (2, len(sel) // 2, len(sel) - 1)])
     chk.cov["parts"]["cwd-e2e"]["distribution"] = dist
@@ -1701,7 +1751,8 @@ def replay(chk, rep):
             print("  %s: argv=%s json=%s" % (f, a[1].get(f) if a[0] == "ok" else a, b[1].get(f) if b[0] == "ok" else b))
         print("REPLAY: %s" % (("still fails: configuration differs in %s" % df[:10]) if df else "the two front ends build the same configuration now"))
         return 1 if df else 0
-    rs = runner.prepare(job, "x", json_job=jj, argv_override=rep.get("argv_reversed_order"), style=rep.get("style", 0), flavour=fl)
+    rs = runner.prepare(job, "x", json_job=jj, argv_override=rep.get("argv_reversed_order"), style=rep.get("style", 0), argv_order=rep.get("argv_order"),
+                        flavour=fl)
     res = runner.run_all([(job, rs)])[0]
     for n, r in res.items():
         print("%-10s rc=%s usage=%s stdout=%s files=%s payload=%s" % (n, r["rc"], r["usage"], r["stdout"], r["files"], r["payload"]))
